@@ -264,8 +264,59 @@ class X:
                 f'(alpha V mu : R) (x eps : R) : res :=\n  {body}.\n')
 
 
+LB_LOOP = ('for alternative_id in chosen_alternatives:\n'
+           '    epsilon_alternative = epsilon[self.key_to_index[alternative_id]]\n'
+           '    if self.scale_parameter is not None:\n'
+           '        epsilon_alternative /= self.scale_parameter.get_value()\n'
+           '    mu_utility = self.calculate_mu_utility(alternative_id=alternative_id, one_observation=one_observation)\n'
+           '    mu_utility += epsilon_alternative\n'
+           '    if mu_utility > lower_bound:\n'
+           '        lower_bound = mu_utility')
+
+
+def lower_bound_def(x):
+    """lower_bound_dual_variable of one class -> Gallina (Rbar).  Two shapes only (fail closed): `return <const>` and
+    the running maximum of mu_k + eps_k/scale over the chosen alternatives started at <init>; the chosen alternatives
+    enter as the list of their (mu_k, eps_k) pairs (eps_k = epsilon[key_to_index[k]])."""
+    fn = x.method('lower_bound_dual_variable')
+    if fn.decorator_list:
+        x.bad(fn, 'unexpected decorator')
+    args = [a.arg for a in fn.args.args]
+    if args != ['self', 'chosen_alternatives', 'one_observation', 'epsilon']:
+        raise Untranslatable(f'{x.path}: lower_bound_dual_variable has signature {args}')
+    body = [st for st in fn.body
+            if not (isinstance(st, ast.Expr) and isinstance(st.value, ast.Constant) and isinstance(st.value.value, str))]
+
+    def rbar(e):
+        t = ast.unparse(e)
+        if t == '-np.inf':
+            return 'm_infty'
+        if t == 'np.inf':
+            return 'p_infty'
+        if isinstance(e, ast.Constant) or (isinstance(e, ast.UnaryOp) and isinstance(e.op, ast.USub)
+                                           and isinstance(e.operand, ast.Constant)):
+            return f'(Finite {x.expr(e, {})})'
+        x.bad(e, 'bound is neither a constant nor -np.inf')
+
+    head = (f'(* from {x.path} {x.cls.name}.lower_bound_dual_variable ; l = [(mu_k, eps_k) for k in chosen_alternatives] *)\n'
+            f'Definition {x.prefix}_lower_bound (scale : option R) (l : list (R * R)) : Rbar :=\n  ')
+    if len(body) == 1 and isinstance(body[0], ast.Return) and body[0].value is not None:
+        return head + rbar(body[0].value) + '.\n'
+    if len(body) == 3 and isinstance(body[0], ast.Assign) and len(body[0].targets) == 1 \
+            and ast.unparse(body[0].targets[0]) == 'lower_bound' and ast.unparse(body[1]) == LB_LOOP \
+            and ast.unparse(body[2]) == 'return lower_bound':
+        init = rbar(body[0].value)
+        return (head + 'fold_left (fun (lower_bound : Rbar) (me : R * R) =>\n'
+                '     let eps_s := match scale with Some s => snd me / s | None => snd me end in\n'
+                '     let mu_utility := fst me + eps_s in\n'
+                '     if Rbar_lt_dec lower_bound (Finite mu_utility) then Finite mu_utility else lower_bound)\n'
+                f'    l {init}.\n')
+    raise Untranslatable(f'{x.path}: lower_bound_dual_variable has an unexpected body: '
+                         + ' ; '.join(ast.unparse(st)[:60] for st in body))
+
+
 def gen_formulas_text():
-    parts = ['From Coq Require Import Reals Bool.\nFrom Coquelicot Require Import Rbar.\n'
+    parts = ['From Coq Require Import Reals Bool List.\nFrom Coquelicot Require Import Rbar.\n'
              'From BV Require Import Model.Mdcev.\nOpen Scope R_scope.\n'
              '(* np.log(np.finfo(dtype=float).max) *)\n'
              'Definition MAX_EXP_ARGUMENT : R := ln ((2 - / 2 ^ 52) * 2 ^ 1023).\n']
@@ -274,6 +325,7 @@ def gen_formulas_text():
         x = X(prefix, path, cls)
         for kind in ('utility', 'derivative', 'optimal'):
             parts.append(x.function(kind))
+        parts.append(lower_bound_def(x))
         if prefix == 'gp':
             og = x.og_by_key
     if og is None:
@@ -428,7 +480,10 @@ def gen_labels(rng, n, kind):
             return l
 
 
-def gen_model(rng, variant=None, n=None, outside=None):
+def gen_model(rng, variant=None, n=None, outside=None, satiated=False):
+    """satiated (NonMonotonic only): every mu_k is so negative that mu_k + eps_k/scale < 0 for most draws: the
+    marginal utilities become negative at large consumption, so a budget beyond the satiation point forces a NEGATIVE
+    dual variable (the budget constraint is an equality)"""
     v = variant or rng.choice('GTZN')
     n = n or rng.choice([2, 3, 3, 4, 5, 6])
     outside = rng.random() < 0.6 if outside is None else outside
@@ -450,6 +505,10 @@ def gen_model(rng, variant=None, n=None, outside=None):
     c['price'] = [r3(rng, 0.3, 4.0) for _ in range(n)] if (v in 'GZ' and rng.random() < 0.6) else None
     c['scale'] = r3(rng, 0.4, 4.0) if rng.random() < 0.6 else None
     c['mu'] = [r3(rng, -0.8, 0.8) for _ in range(n)] if v == 'N' else None
+    if v == 'N' and satiated:
+        c['mu'] = [r3(rng, -5.0, -1.5) for _ in range(n)]
+        if c['scale'] is not None:
+            c['scale'] = r3(rng, 1.0, 4.0)
     c['pk'] = rng.choice(['numeric', 'beta'])
     return c
 
@@ -832,11 +891,16 @@ def gen_forecast_cases(ctx, rng, nmod):
     groups = []
     for j in range(nmod):
         v = 'GTZN'[j % 4]
-        c = gen_model(rng, variant=v)
+        # dual-sign regimes of NonMonotonic: every other N model is 'satiated' (see gen_model) with a budget that is
+        # mostly beyond the satiation point -> negative dual variable; the others have dual variables of either sign
+        sat = v == 'N' and (j // 4) % 2 == 0
+        c = gen_model(rng, variant=v, satiated=sat)
         n = len(c['a'])
         nd = 3
         draws = [[gumbel(rng) for _ in range(n)] for _ in range(nd)]
         B = rng.choice([r3(rng, 0.05, 2.0), r3(rng, 2.0, 50.0), r3(rng, 50.0, 2000.0)])
+        if sat:
+            B = rng.choice([r3(rng, 0.05, 2.0), r3(rng, 5.0, 80.0), r3(rng, 5.0, 80.0), r3(rng, 80.0, 2000.0)])
         labelings = [gen_labels(rng, n, 'canon0'), gen_labels(rng, n, 'odd')]
         labelings.append(gen_labels(rng, n, rng.choice(['odd', 'perm1', 'canon1'])))
         if c['og_pos_in_labels'] is not None and (v == 'G' or rng.random() < 0.3):
@@ -864,7 +928,9 @@ def stream_forecast(ctx):
                     '0..n-1 and under 2-3 labelings that are not 0..n-1 (random distinct ints incl. negative/large, permuted '
                     '1..n, labels colliding with the position of the outside good) and, HISTORY, as a model object already '
                     'used on another data set with the same database/row names (validation, one-draw, forecast) compared '
-                    'with a fresh object; budgets 0.05..2000; 3 Gumbel draws; '
+                    'with a fresh object; budgets 0.05..2000; 3 Gumbel draws; NonMonotonic in both dual-sign regimes (half of the N '
+                    'models satiated: all mu_k + eps_k/scale < 0 and budgets beyond the satiation point => negative dual variable; '
+                    'coverage floor asserted); '
                     'non-trivial = at least one good consumed and one not, or >= 2 consumed; distinct by (model, labels, draw)')
     rng = ctx.sub_rng('forecast')
     groups = gen_forecast_cases(ctx, rng, ctx.n(48, 1200))
@@ -881,7 +947,8 @@ def stream_forecast(ctx):
     nbad = 0
     kkt_items = []
     stats = {'brute_missing': 0, 'brute_compared': 0, 'exceptions': 0, 'relabel_pairs': 0, 'collision_cases': 0,
-             'history_cases': sum(1 for g in groups for c in g if c.get('history'))}
+             'history_cases': sum(1 for g in groups for c in g if c.get('history')),
+             'N_negative_dual': 0, 'N_positive_dual': 0, 'N_negative_dual_partial_choice_set': 0}
     for gi, g in enumerate(groups):
         infos_g = []
         for li, c in enumerate(g):
@@ -903,6 +970,10 @@ def stream_forecast(ctx):
                     stats['brute_missing'] += 1
                 if info is not None:
                     kkt_items.append((c, r, j, info))
+                    if c['variant'] == 'N':
+                        stats['N_negative_dual' if info['lam'] < 0 else 'N_positive_dual'] += 1
+                        if info['lam'] < 0 and info['n_consumed'] < len(c['labels']):
+                            stats['N_negative_dual_partial_choice_set'] += 1
         # 10. label independence: the same alternative gets the same consumption under every labeling
         base_c, base_r = by[(gi, 0)]
         for li in range(1, len(g)):
@@ -925,6 +996,11 @@ def stream_forecast(ctx):
                         break
     st.extra.update(stats)
     st.extra['oracle_failures'] = nbad
+    # coverage floor (fail closed): the stream must have exercised forecasts with a negative dual variable
+    n_sat = sum(1 for g in groups for c in g if c['variant'] == 'N' and min(c['mu']) <= -1.5 and max(c['mu']) <= -1.5)
+    if n_sat and not nbad and stats['N_negative_dual'] < max(3, n_sat // 4):
+        ctx.stream_broken('forecast', f'generator degenerated: only {stats["N_negative_dual"]} NonMonotonic forecasts with a '
+                          f'negative dual variable for {n_sat} satiated cases')
     kkt_in_coq(ctx, st, kkt_items)
     return nbad
 
